@@ -358,6 +358,12 @@ fn check_wire(c: &Corpus, r: &mut Rng, asynchronous: bool, p: &mut Part) -> Resu
         }
         calls.push(cl);
     }
+    // the options that belong to another transport (the relay's host selection and passwords) are rare in random
+    // sequences: a third of the sessions set them at a random position, before or after the transport is chosen
+    if r.chance(1, 3) {
+        let at = if proto_last { r.usize_below(calls.len() + 1) } else { 1 + r.usize_below(calls.len()) };
+        calls.insert(at, Call::RelayHost);
+    }
     if proto_last {
         calls.push(final_proto);
     }
